@@ -4,6 +4,7 @@
 pub mod c01;
 pub mod c02;
 pub mod c03;
+pub mod c04;
 pub mod c06;
 pub mod c19;
 pub mod enc;
@@ -26,6 +27,7 @@ fn main() {
             "C01" => c01::replay(&ctx, &sub, &case),
             "C02" => c02::replay(&ctx, &sub, &case),
             "C03" => c03::replay(&ctx, &sub, &case),
+            "C04" => c04::replay(&ctx, &sub, &case),
             "C06" => c06::replay(&ctx, &sub, &case),
             "C19" => c19::replay(&ctx, &sub, &case),
             _ => {
@@ -53,6 +55,10 @@ fn main() {
         "C03" => {
             c03::run_all(&ctx);
             ctx.finish(c03::RULE, &["the clear secrets are read through hook H4", "FFT64 cases keep N * digits * columns * 2^(2(b-1)) inside the exactness domain of DESIGN C07, so the gadget product is exact integer arithmetic and the bound needs no floating-point term", "inputs are arbitrary normalised GLWE-shaped vectors (valid ciphertexts of their own phase), keys come from the library's key-encryption routines"], &[("a_size_not_multiple_of_dsize", 100), ("three_way_radix", 100), ("rank_in!=rank_out", 100), ("bound<2^-8", 1000)])
+        }
+        "C04" => {
+            c04::run_all(&ctx);
+            ctx.finish(c04::RULE, &["the clear secrets are read through hook H4", "FFT64 cases keep the gadget product inside the exactness domain of DESIGN C07 (CMux: one bit of extra head-room for the un-normalised difference)", "inputs are arbitrary normalised GLWE-shaped vectors; GGSW, switching, automorphism and tensor keys come from the library's encryption routines"], &[("a_size_not_multiple_of_dsize", 100), ("three_way_radix", 100), ("bound<2^-8", 1000), ("m2=ternary_dense", 100)])
         }
         "C06" => {
             c06::run_all(&ctx);
